@@ -150,6 +150,9 @@ def run(rec, cfg):
 
 
 def replay(rec, cfg, w):
+    from ..oracles import printer as _PR
+
+    _PR.USER_ROUTE[0] = True
     MR.CHECKS.update({"print"})
     MR.attach_apply()
     if "rule" in w and "node_index" in w:
